@@ -399,7 +399,10 @@ class Executor:
             cands = self.by_last.get(method, [])
             bt = base_type(ty)
             for f in cands:
-                if f.params and base_type(f.params[0][1]) == bt and "<impl at" in f.name:
+                if "<impl at" not in f.name:
+                    continue
+                owner_ty = base_type(f.params[0][1]) if f.params else base_type(f.ret)
+                if owner_ty == bt or (not f.params and self._impl_self(f) == bt):
                     if self._impl_trait(f) in (base_type(trait), None):
                         return f
             return None
@@ -628,9 +631,12 @@ class Executor:
             return self.eval_const(st, short[0])
         m = re.match(r"(.*)::promoted\[(\d+)\]$", key)
         if m:
-            for k in self.consts:
-                if k.endswith(f"promoted[{m.group(2)}]") and strip_generics(m.group(1)) in strip_generics(k):
-                    return self.eval_const(st, k)
+            fn_last = strip_generics(m.group(1)).split("::")[-1]
+            cands = [k for k in self.consts if k.endswith(f"::{fn_last}::promoted[{m.group(2)}]")]
+            if len(cands) > 1 and fr is not None:
+                cands = [k for k in cands if k.startswith(fr.fn.name)] or cands
+            if cands:
+                return self.eval_const(st, cands[0])
         return VOpaque("const", t)
 
     def eval_const(self, st, key):
@@ -645,7 +651,7 @@ class Executor:
         finals = self.run(sub)
         st.ncell = max(st.ncell, sub.ncell)
         if len(finals) != 1 or finals[0].status != "returned":
-            raise Unsupported(f"const {key} did not evaluate")
+            raise Unsupported(f"const {key} did not evaluate: {[ (x.status, x.note) for x in finals][:2]}")
         st.ncell = finals[0].ncell
         st.cells.update(finals[0].cells)
         return finals[0].retval
@@ -671,10 +677,15 @@ class Executor:
                 ov = z3.Or(r > hi, r < lo)
                 w = self.wrap(r, ty) if name[0] != "M" else self._wrap_mod(r, ty)
                 return VStruct("tuple", [VInt(w, ty), VBool(ov)])
-            if name == "Div":
-                return VInt(x / y, ty)
-            if name == "Rem":
-                return VInt(x % y, ty)
+            if name in ("Div", "Rem"):
+                cx, cy = z3.simplify(x), z3.simplify(y)
+                if z3.is_int_value(cy) or int_range(ty)[0] < 0:
+                    return VInt(x / y if name == "Div" else x % y, ty)
+                # symbolic divisor: fresh quotient/remainder + the division lemma
+                # (x = q*y + r, 0 <= r < y) instead of a non-linear div term
+                q, rr = self.fresh("q"), self.fresh("r")
+                st.pc.append(z3.And(x == q * y + rr, rr >= 0, rr < y, q >= 0, q <= x))
+                return VInt(q if name == "Div" else rr, ty)
             if name in ("BitAnd", "BitOr", "BitXor", "Shl", "Shr"):
                 cx, cy = z3.simplify(x), z3.simplify(y)
                 if z3.is_int_value(cx) and z3.is_int_value(cy):
@@ -768,16 +779,18 @@ class Executor:
                 return VVec([self.operand(st, fr, e) for e in elems])
             if kind == "closure":
                 return VStruct(name, [self.operand(st, fr, e) for _, e in elems])
-            return self.make_adt(st, fr, kind, name, elems)
+            return self.make_adt(st, fr, kind, name, elems, dest_ty)
         if k == "nullary":
             raise Unsupported("nullary op " + rv[1])
         raise Unsupported("rvalue " + k)
 
-    def make_adt(self, st, fr, kind, name, elems):
+    def make_adt(self, st, fr, kind, name, elems, dest_ty=None):
         n = strip_generics(name).strip()
         parts = n.split("::")
         last = parts[-1]
         owner = parts[-2] if len(parts) >= 2 else None
+        if owner is None and dest_ty in self.si.enums and self.si.variant_index(dest_ty, last) is not None:
+            owner = dest_ty
         if kind == "struct":
             vals = {fname: self.operand(st, fr, e) for fname, e in elems}
             if owner in self.si.enums and self.si.variant_index(owner, last) is not None:
@@ -819,7 +832,10 @@ class Executor:
             if k == "nop":
                 continue
             if k == "assign":
-                v = self.rvalue(st, fr, s[2])
+                hint = None
+                if s[2][0] == "aggregate" and s[1][0] == "local":
+                    hint = base_type(fr.fn.locals.get(s[1][1], ""))
+                v = self.rvalue(st, fr, s[2], hint)
                 st.store(self.place_ref(st, fr, s[1]), v)
             elif k == "setdisc":
                 r = self.place_ref(st, fr, s[1])
@@ -1033,6 +1049,23 @@ class Executor:
             return outs
         if isinstance(v, VEnum):
             c = v.concrete()
+            if c is None and any(_has_droppable(f) for fl in v.payloads.values() for f in fl):
+                # symbolic discriminant with something to release inside: decide per variant
+                outs = []
+                for vi, flds in v.payloads.items():
+                    cond = v.disc == vi
+                    if not self.feasible(st.pc, cond):
+                        continue
+                    s2 = st.clone()
+                    s2.pc.append(cond)
+                    cur = [s2]
+                    for fld in flds:
+                        nxt = []
+                        for x in cur:
+                            nxt += self.drop_value(x, fld.clone() if not isinstance(fld, VGuard) else fld, None)
+                        cur = nxt
+                    outs += cur
+                return outs
             if c is not None:
                 outs = [st]
                 for fld in v.payloads.get(c, []):
@@ -1066,6 +1099,18 @@ class Executor:
                 del st.locks[i]
                 break
         st.event("rel", lock=g.lock, mode=g.mode)
+
+
+def _has_droppable(v):
+    if isinstance(v, VGuard):
+        return v.live
+    if isinstance(v, VStruct):
+        return v.name in ("NamedTempFile", "BufWriter") or any(_has_droppable(f) for f in v.fields)
+    if isinstance(v, VEnum):
+        return any(_has_droppable(f) for fl in v.payloads.values() for f in fl)
+    if isinstance(v, VVec):
+        return any(_has_droppable(f) for f in v.elems)
+    return False
 
 
 def load_mir(path, src_root):
